@@ -902,6 +902,22 @@ def replace (m : Str → Bool) (a : Anchor) (all : Bool) (w s : Str) : Str :=
     if m [] then w     -- a glob that matches the empty string is all stars: one match, everything
     else if all then replAll m w s.length s else replFirst m w s
 
+/-- bash 5.2 `patsub_replacement`: in the (unquoted) replacement text `&` stands for the matched
+    text, `\&` for a literal `&`. -/
+def ampSubst (matched : Str) : Str → Str
+  | [] => []
+  | '\\' :: '&' :: rest => '&' :: ampSubst matched rest
+  | '&' :: rest => matched ++ ampSubst matched rest
+  | c :: rest => c :: ampSubst matched rest
+
+/-- `${s/pat/w}` with that reading of an unquoted replacement `w`. -/
+def replFirstAmp (m : Str → Bool) (w : Str) : Str → Str
+  | [] => []
+  | c :: cs =>
+    match longestAt m (c :: cs) with
+    | some k => ampSubst ((c :: cs).take k) w ++ (c :: cs).drop k
+    | none => c :: replFirstAmp m w cs
+
 /-- `${s^pat}` … `${s,,pat}`: each character (the first only) that matches the pattern — an empty
     pattern is `?` — is converted. -/
 def caseConv (f : Char → Char) (hit : Char → Bool) (all : Bool) : Str → Str
